@@ -298,9 +298,28 @@ impl WorkerState for W {
         let inputs = Arc::new(inputs);
         let barrier = Arc::new(Barrier::new(n_threads + n_compilers));
         let t0 = Instant::now();
+        // one case in four: the threads call a closure made with `into_func`, and the package and
+        // every handle are gone before the first call
+        let as_closure = c.chance(64);
+        // (whether such a closure is Send + Sync is what the rustc probes decide; here it is shared
+        // whatever its auto traits say, so that this engine also builds against a tree where it is not)
+        struct Shared(Box<dyn Fn(u64, u64) -> model::V>);
+        unsafe impl Send for Shared {}
+        unsafe impl Sync for Shared {}
+        let closure: Option<Arc<Shared>> = if as_closure { Some(Arc::new(Shared(crate::progexec::main_closure(mainf.clone())))) } else { None };
+        let (mut pkg, mut mainf) = (Some(pkg), Some(mainf));
+        if as_closure {
+            let (p, m) = (pkg.take(), mainf.take());
+            let dropper = std::thread::spawn(move || {
+                drop(m);
+                drop(p);
+            });
+            let _ = dropper.join();
+        }
         let mut handles = Vec::new();
         for t in 0..n_threads {
             let f = mainf.clone();
+            let g = closure.clone();
             let inputs = inputs.clone();
             let barrier = barrier.clone();
             handles.push(std::thread::spawn(move || -> Result<(u128, u128), String> {
@@ -309,7 +328,11 @@ impl WorkerState for W {
                 for k in 0..n_calls {
                     let (inp, args, want, want_log) = &inputs[(k + t) % inputs.len()];
                     host::reset_local(inp.clone());
-                    let got = model::show(&call_main(&f, args.0, args.1));
+                    let got = match (&f, &g) {
+                        (_, Some(g)) => model::show(&(g.0)(args.0, args.1)),
+                        (Some(f), None) => model::show(&call_main(f, args.0, args.1)),
+                        (None, None) => unreachable!(),
+                    };
                     let log: Vec<String> = host::take_log().iter().map(model::show_ev).collect();
                     if &got != want {
                         return Err(format!("thread {t}, call {k}: returned {got} but the same call returns {want} single-threaded"));
@@ -361,6 +384,7 @@ impl WorkerState for W {
             f.render = Some(src);
             return f;
         }
+        drop(closure);
         drop(mainf);
         drop(pkg);
         let (live1, tz1) = host::live_count();
@@ -396,7 +420,7 @@ impl W {
     /// reference-counted and aggregate types: every call copies (clones) from storage that all
     /// threads share
     fn constants_hammer(&mut self, case: &Case, render: bool) -> Outcome {
-        const SRC: &str = "record Conf {\n    name: String,\n    n: u64,\n    tags: List[String],\n}\nconst GREETING: String = \"hello, \";\nconst NAMES: List[String] = [\"a\", \"bb\", \"ccc\"];\nconst CONF: Conf = Conf { name: \"conf\", n: 7, tags: [\"x\", \"y\"] };\nrecord Stats {\n    sum: u64,\n    count: u64,\n    low: u8,\n}\nconst EMPTY: Stats = Stats { sum: 0, count: 0, low: 3 };\nfn m(x: u64) -> u64 {\n    let s = EMPTY;\n    s.sum = s.sum + x;\n    s.count = s.count + 1;\n    s.sum * 1000 + s.count * 10 + EMPTY.count\n}\nfn f(name: String) -> String {\n    GREETING + name\n}\nfn g(i: u64) -> String {\n    match NAMES.get(i) {\n        Some(s) => s,\n        None => \"none\",\n    }\n}\nfn h(x: u64) -> u64 {\n    let c = CONF;\n    let d = c;\n    if d.name == \"conf\" && d.tags == [\"x\", \"y\"] { d.n + x } else { 0 }\n}\n";
+        const SRC: &str = "record Conf {\n    name: String,\n    n: u64,\n    tags: List[String],\n}\nconst GREETING: String = \"hello, \";\nconst NAMES: List[String] = [\"a\", \"bb\", \"ccc\"];\nconst CONF: Conf = Conf { name: \"conf\", n: 7, tags: [\"x\", \"y\"] };\nrecord Stats {\n    sum: u64,\n    count: u64,\n    low: u8,\n}\nconst EMPTY: Stats = Stats { sum: 0, count: 0, low: 3 };\nfn m(x: u64) -> u64 {\n    let s = EMPTY;\n    s.sum = s.sum + x;\n    s.count = s.count + 1;\n    s.sum * 1000 + s.count * 10 + EMPTY.count\n}\nfn f(name: String) -> String {\n    GREETING + name\n}\nfn g(i: u64) -> String {\n    match NAMES.get(i) {\n        Some(s) => s,\n        None => \"none\",\n    }\n}\nfn h(x: u64) -> u64 {\n    let c = CONF;\n    let d = c;\n    if d.name == \"conf\" && d.tags == [\"x\", \"y\"] { d.n + x } else { 0 }\n}\nconst BUF: StringBuf = StringBuf.new();\nfn p(c: char) -> u64 {\n    BUF.push_char(c);\n    BUF.as_string().bytes().len()\n}\nfn plen() -> u64 {\n    BUF.as_string().bytes().len()\n}\n";
         let empty: Vec<u8> = Vec::new();
         let ctl = case.get(2).unwrap_or(&empty);
         let mut c = Choices::new(ctl.get(1..).unwrap_or(&[]));
@@ -410,13 +434,27 @@ impl W {
         let g = pkg.get_function::<fn(u64) -> roto::RotoString>("g").expect("g");
         let h = pkg.get_function::<fn(u64) -> u64>("h").expect("h");
         let m = pkg.get_function::<fn(u64) -> u64>("m").expect("m");
+        let p = pkg.get_function::<fn(char) -> u64>("p").expect("p");
+        let plen = pkg.get_function::<fn() -> u64>("plen").expect("plen");
         let barrier = Arc::new(Barrier::new(n_threads));
         let mut hs = Vec::new();
         for t in 0..n_threads {
-            let (f, g, h, m, barrier) = (f.clone(), g.clone(), h.clone(), m.clone(), barrier.clone());
+            let (f, g, h, m, p, barrier) = (f.clone(), g.clone(), h.clone(), m.clone(), p.clone(), barrier.clone());
             hs.push(std::thread::spawn(move || -> Result<(), String> {
                 barrier.wait();
+                let (mut own_pushes, mut last_len) = (0u64, 0u64);
                 for i in 0..calls {
+                    if i % 8 == 5 {
+                        // a constant that is shared mutable state (StringBuf): every push of every
+                        // thread must arrive, and a thread sees at least its own pushes
+                        let got = p.call('x');
+                        own_pushes += 1;
+                        if got < own_pushes || got <= last_len {
+                            return Err(format!("thread {t}, call {i}: after its push number {own_pushes} the shared StringBuf constant has length {got} (the call before saw {last_len})"));
+                        }
+                        last_len = got;
+                        continue;
+                    }
                     match i % 4 {
                         3 => {
                             // a copy of a plain-data constant is modified: the constant must not change
@@ -464,6 +502,10 @@ impl W {
         let text = format!("constants hammer: {n_threads} threads x {calls} calls of functions that read String / List / record constants\n{SRC}");
         if let Some(e) = err {
             return Outcome::fail("constants-hammer:wrong-result", format!("{e}\n{text}"));
+        }
+        let pushes = (n_threads * (0..calls).filter(|i| i % 8 == 5).count()) as u64;
+        if plen.call() != pushes {
+            return Outcome::fail("constants-hammer:lost-update", format!("{pushes} characters were pushed to the shared StringBuf constant, it holds {}\n{text}", plen.call()));
         }
         // once more single-threaded: the constants must be what they were
         if f.call(roto::RotoString::from("z")).to_string() != "hello, z" || g.call(1).to_string() != "bb" || h.call(1) != 8 {
